@@ -370,8 +370,9 @@ struct Runner {
 #endif
 	static void observe(uint8_t i, Ev& e) {
 		Slot& s = slots[i];
-		if (!s.alive || s.dead) { e.mAct = NOID; e.mManual = 2; return; }
+		if (!s.alive || s.dead) { e.mAct = NOID; e.mManual = 2; e.live = 0; return; }
 		Instance& m = *ptr(i);
+		e.live = 1;
 		e.mAct = m.activeStateId();
 		uint64_t mask = 0;
 		for (int k = 0; k < N; ++k) if (m.isActive(static_cast<ffsm2::StateID>(k))) mask |= (1ull << k);
@@ -822,11 +823,19 @@ struct Runner {
 #endif
 			break;
 		case OP_RECONSTRUCT:
+			// two windows: the tear-down (bracketed like an op) and a construction window like the initial one
 			begin(inst, code, op.a, 0, 0);
 			W.quiet = false;
 			ok = destroy(inst);
-			if (ok) { W.op = actSource; ok = construct(inst, op.a); }
-			break;
+			if (ok) {
+				end(inst, code, op.a, 0, 0);
+				W.op = actSource;
+				ok = construct(inst, op.a);
+				if (ok) { W.cur = inst; Ev& e = pushEv(EV_END); e.method = OP_RECONSTRUCT; observe(inst, e); }
+			}
+			W.op = nullptr;
+			lastCode = code;
+			return ok;
 		case OP_COPY:
 			return execCopy(inst, idx);
 		default: break;
